@@ -75,4 +75,22 @@ theorem tie_successRate (r : Ring) : Generated.Breaker.countingSuccessRate r = p
   simp only [Generated.Breaker.countingSuccessRate, pct, floatToNat]
   by_cases h : r.occ = 0 <;> simp [h]
 
+/-! the statistics the thresholds are computed from: the counters `Stats.exec / fails / succs / frate / srate` of the model are the
+getters of the two statistics implementations, for the ring and for the time window alike -/
+theorem tie_countingCounts (r : Ring) :
+    Generated.Breaker.countingExecutionCount r = (Stats.ring r).exec ∧ Generated.Breaker.countingFailureCount r = (Stats.ring r).fails ∧
+    Generated.Breaker.countingSuccessCount r = (Stats.ring r).succs := ⟨rfl, rfl, rfl⟩
+
+theorem tie_timedCounts (t : Timed) :
+    Generated.Breaker.timedExecutionCount t = (Stats.timed t).exec ∧ Generated.Breaker.timedFailureCount t = (Stats.timed t).fails ∧
+    Generated.Breaker.timedSuccessCount t = (Stats.timed t).succs := ⟨rfl, rfl, rfl⟩
+
+theorem tie_timedFailureRate (t : Timed) : Generated.Breaker.timedFailureRate t = (Stats.timed t).frate := by
+  simp only [Generated.Breaker.timedFailureRate, Stats.frate, Stats.fails, Stats.exec, pct, floatToNat]
+  by_cases h : t.sumS + t.sumF = 0 <;> simp [h]
+
+theorem tie_timedSuccessRate (t : Timed) : Generated.Breaker.timedSuccessRate t = (Stats.timed t).srate := by
+  simp only [Generated.Breaker.timedSuccessRate, Stats.srate, Stats.succs, Stats.exec, pct, floatToNat]
+  by_cases h : t.sumS + t.sumF = 0 <;> simp [h]
+
 end Failsafe.Tie.Breaker
